@@ -309,6 +309,14 @@ def proof_stage(prop, tier='quick'):
                 problems.append(('coqchk', 'independent re-check failed or reports axioms %s: %s' % (bad, summary[-400:])))
         except Exception as e:
             problems.append(('coqchk', 'coqchk could not be run: %r' % e))
+    # source-level ties (additive hook): definitions regenerated from the source text + equality lemmas re-checked (lib/srctie.py)
+    hook = getattr(prop, 'source_ties', None)
+    if hook:
+        tinfo, tproblems = hook()
+        info['source_tie'] = tinfo
+        info['obligations'] += tinfo.get('obligations', 0)
+        info['discharged'] += tinfo.get('discharged', 0)
+        problems.extend(tproblems)
     expected = getattr(prop, 'THEOREMS', None)
     if expected:
         missing = [t for t in expected if t not in theorems]
@@ -472,6 +480,7 @@ def _run_check(prop, tier, seed, replay, t0, violations, known_lines):
             'theorems': info['theorems'],
             'axioms_reported': axioms if axioms else ['none: every theorem is closed under the global context'],
             'proof_problems': [d[:300] for _, d in problems],
+            'source_tie': info.get('source_tie', 'none'),
             'coqchk': info.get('coqchk', 'not run in the quick tier (run by the thorough tier: coqchk -o on Properties/%s.vo and all its dependencies)' % pid),
             'evaluations': len(cases), 'distinct_nontrivial': len(nontrivial),
             'rule': getattr(prop, 'RULE', ''),
